@@ -26,7 +26,7 @@ def job(j):
         ecfg = dict(ENGINE_CFGS[state["n"] % len(ENGINE_CFGS)])
         if rec.get("trs"):
             ecfg["trs"] = tuple(sorted(rec["trs"]))
-        resp, cs, doc = execreplay.run_plain(w, rec, ecfg, layout=state["n"] % 2, rename_frags=(state["n"] % 3 == 1), reverse_defs=(state["n"] % 5 == 2), rename_vars=(state["n"] % 2 == 0),
+        resp, cs, doc = execreplay.run_plain(w, rec, ecfg, layout=state["n"] % 2, rename_frags=(True if state["n"] % 3 == 1 else ("op" if state["n"] % 3 == 2 else False)), reverse_defs=(state["n"] % 5 == 2), rename_vars=(state["n"] % 2 == 0),
                                              initial=({"_id": "ROOT%d" % state["n"], "d": "rootd"} if state["n"] % 4 == 3 else None))
         mm = execreplay.compare_plain(rec, resp, cs)
         sc = execreplay.shape_class(rec["nodes"])
